@@ -900,7 +900,7 @@ class FxNode:
         self.args = FxNode._subst(self.args, old, new)
 
     def __repr__(self):
-        return f'<fxnode {self.op} {self.target}>'
+        return self.name                 # torch.fx.Node prints as its name (the repository builds sub-module names from it)
 
 
 class FxGraph:
@@ -1318,7 +1318,17 @@ def install(interp):
     fx = I.NS('torch.fx', Node=FxNode, GraphModule=nn._fx_stubs['GraphModule'], Graph=FxGraph, Tracer=nn._fx_stubs['Tracer'],
               passes=I.NS('passes', shape_prop=I.NS('shape_prop', ShapeProp=nn._fx_stubs['ShapeProp'])))
     torch.fx = fx
-    torch.vmap = I.Missing('torch.vmap')
+    def t_vmap(it, fn, in_dims=0, out_dims=0, **kw):
+        """torch.vmap over dimension 0 of every (tensor) argument; results stacked along dimension 0"""
+        if in_dims != 0 or out_dims != 0:
+            raise Unsupported('vmap over a dimension other than 0')
+
+        def mapped(it2, *args):
+            n = _t(args[0]).shape[0]
+            outs = [_t(it.call(fn, [_t(a)[i] for a in args], {})) for i in range(n)]
+            return stack(outs, 0)
+        return I.InterpBuiltin(mapped)
+    torch.vmap = I.InterpBuiltin(t_vmap)
     torch.onnx = I.Missing('torch.onnx')
 
     # ---- method-level patches on Tensor that need the library (softmax etc.)
